@@ -1,7 +1,10 @@
 #!/bin/sh
 # usage: tools/seedtest.sh <patch> <prop> [<prop>...]  — apply a seeded change to /repo, run quick checks, undo.
+# Evidence files are saved and restored: evidence must only ever describe runs on the unchanged tree.
 patch="$1"; shift
 cd /repo && git apply "$patch" || { echo "PATCH DOES NOT APPLY"; exit 2; }
 cd /verif
-for p in "$@"; do ./check "$p" --tier quick 2>&1 | grep -E "VIOLATION|KNOWN|^\[" ; done
+rm -rf .build/evidence_saved; mkdir -p .build/evidence_saved; cp evidence/*.json .build/evidence_saved/ 2>/dev/null
+for p in "$@"; do ./check "$p" --tier quick 2>&1 | grep -E "VIOLATION|^\[" ; done
+cp .build/evidence_saved/*.json evidence/ 2>/dev/null
 cd /repo && git checkout -- . && git status --short | grep -v '^??' | head -3
